@@ -119,6 +119,17 @@ func hasPrefixSym(b []byte, p string) bool {
 }
 
 // checkTokens asserts C04 (1)-(4) on the tokens of a returned tree.
+// firstTokenStart: smallest start offset of a token with text in n's subtree, or -1.
+func firstTokenStart(n ast.Vertex) int {
+	m := -1
+	for _, t := range TokensOf(n, nil, false) {
+		if t.Position != nil && len(t.Value) > 0 && (m < 0 || t.Position.StartPos < m) {
+			m = t.Position.StartPos
+		}
+	}
+	return m
+}
+
 func checkTokens(in []byte, root ast.Vertex, errorFree bool) {
 	lines := LineTable(in)
 	toks := TokensOf(root, nil, true)
@@ -188,6 +199,32 @@ func checkTokens(in []byte, root ast.Vertex, errorFree bool) {
 	if !ffOK {
 		Fail("C04:free-floating-precedes-owner", "")
 	}
+	// order in the tree: within a node, the single-token slots and the single-child slots
+	// (list slots aside: separators live in a list of their own) start in declaration order
+	Walk(root, nil, func(n, _ ast.Vertex) {
+		last, lastName := -1, ""
+		for _, sl := range SlotsOf(n) {
+			st := -1
+			switch sl.Kind {
+			case SToken:
+				if sl.T != nil && sl.T.Position != nil && len(sl.T.Value) > 0 {
+					st = sl.T.Position.StartPos
+				}
+			case SVertex:
+				if !IsNilVertex(sl.V) {
+					st = firstTokenStart(sl.V)
+				}
+			}
+			if st < 0 {
+				continue
+			}
+			if st < last {
+				Fail("C04:tokens-in-tree-order", KindNames[KindOf(n)]+"."+sl.Name+" starts before "+lastName)
+				return
+			}
+			last, lastName = st, sl.Name
+		}
+	})
 	// tiling
 	at := 0
 	for _, t := range toks {
